@@ -1050,4 +1050,1509 @@ theorem mlp_layers (offset : Bool) (act outAct nIn nOut : Nat) (hs : List Nat)
   simp only [mlpLayers_eq, List.drop_one, List.tail_cons, List.nil_append, biasE]
   exact List.Perm.refl _
 
+
+/-! ## the evaluation order -/
+
+theorem insertSorted_perm (p : Nat × Nat) (l : List (Nat × Nat)) : (insertSorted p l).Perm (p :: l) := by
+  induction l with
+  | nil => exact List.Perm.refl _
+  | cons q qs ih =>
+    unfold insertSorted
+    split
+    · exact List.Perm.refl _
+    · exact (List.Perm.cons q ih).trans (List.Perm.swap p q qs)
+
+theorem insertSorted_sorted (p : Nat × Nat) (l : List (Nat × Nat))
+    (h : l.Pairwise fun a b => a.1 ≤ b.1) : (insertSorted p l).Pairwise fun a b => a.1 ≤ b.1 := by
+  induction l with
+  | nil => simp [insertSorted]
+  | cons q qs ih =>
+    rw [List.pairwise_cons] at h
+    unfold insertSorted
+    split
+    · rename_i hpq
+      rw [List.pairwise_cons]
+      refine ⟨?_, List.pairwise_cons.mpr h⟩
+      intro a ha
+      rcases List.mem_cons.mp ha with rfl | ha
+      · exact hpq
+      · exact Nat.le_trans hpq (h.1 a ha)
+    · rename_i hpq
+      rw [List.pairwise_cons]
+      refine ⟨?_, ih h.2⟩
+      intro a ha
+      rcases List.mem_cons.mp ((insertSorted_perm p qs).mem_iff.mp ha) with rfl | ha
+      · omega
+      · exact h.1 a ha
+
+def srcPairs (conns : List (Nat × Nat)) (t : Nat) : List (Nat × Nat) :=
+  (((List.range conns.length).zip conns).filter fun ic => ic.2.2 == t).map fun ic => (ic.2.1, ic.1)
+
+theorem sourcesOf_perm (conns : List (Nat × Nat)) (t : Nat) : (sourcesOf conns t).Perm (srcPairs conns t) := by
+  unfold sourcesOf srcPairs
+  generalize (List.range conns.length).zip conns = L
+  induction L with
+  | nil => exact List.Perm.refl _
+  | cons ic L ih =>
+    simp only [List.foldr_cons, List.filter_cons]
+    split
+    · simp only [List.map_cons]
+      exact (insertSorted_perm _ _).trans (List.Perm.cons _ ih)
+    · exact ih
+
+theorem sourcesOf_sorted (conns : List (Nat × Nat)) (t : Nat) :
+    (sourcesOf conns t).Pairwise fun a b => a.1 ≤ b.1 := by
+  unfold sourcesOf
+  generalize (List.range conns.length).zip conns = L
+  induction L with
+  | nil => simp
+  | cons ic L ih =>
+    simp only [List.foldr_cons]
+    split
+    · exact insertSorted_sorted _ _ ih
+    · exact ih
+
+theorem mem_range_zip {conns : List (Nat × Nat)} {i : Nat} {c : Nat × Nat} :
+    (i, c) ∈ (List.range conns.length).zip conns ↔ ∃ h : i < conns.length, conns[i] = c := by
+  rw [List.mem_iff_getElem]
+  constructor
+  · rintro ⟨k, hk, he⟩
+    simp only [List.length_zip, List.length_range, Nat.min_self] at hk
+    simp only [List.getElem_zip, List.getElem_range, Prod.mk.injEq] at he
+    obtain ⟨rfl, rfl⟩ := he
+    exact ⟨hk, rfl⟩
+  · rintro ⟨h, rfl⟩
+    exact ⟨i, by simpa using h, by simp⟩
+
+theorem mem_srcPairs {conns : List (Nat × Nat)} {t s i : Nat} :
+    (s, i) ∈ srcPairs conns t ↔ ∃ h : i < conns.length, conns[i] = (s, t) := by
+  unfold srcPairs
+  simp only [List.mem_map, List.mem_filter, beq_iff_eq, Prod.mk.injEq, Prod.exists]
+  constructor
+  · rintro ⟨i', s', t', ⟨hm, rfl⟩, rfl, rfl⟩
+    exact mem_range_zip.mp hm
+  · rintro ⟨h, he⟩
+    exact ⟨i, s, t, ⟨mem_range_zip.mpr ⟨h, he⟩, rfl⟩, rfl, rfl⟩
+
+theorem mem_sourcesOf {conns : List (Nat × Nat)} {t s i : Nat} :
+    (s, i) ∈ sourcesOf conns t ↔ ∃ h : i < conns.length, conns[i] = (s, t) := by
+  rw [(sourcesOf_perm conns t).mem_iff, mem_srcPairs]
+
+theorem srcPairs_idx_nodup (conns : List (Nat × Nat)) (t : Nat) : ((srcPairs conns t).map (·.2)).Nodup := by
+  unfold srcPairs
+  rw [List.map_map]
+  have h1 : (((List.range conns.length).zip conns).filter fun ic => ic.2.2 == t).map
+      ((fun x : Nat × Nat => x.2) ∘ fun ic : Nat × (Nat × Nat) => (ic.2.1, ic.1)) =
+      (((List.range conns.length).zip conns).filter fun ic => ic.2.2 == t).map (·.1) := rfl
+  rw [h1]
+  have h2 : ((List.range conns.length).zip conns).map (·.1) = List.range conns.length :=
+    List.map_fst_zip (by simp)
+  have := (List.filter_sublist (p := fun ic : Nat × (Nat × Nat) => ic.2.2 == t)
+    (l := (List.range conns.length).zip conns)).map (·.1)
+  rw [h2] at this
+  exact List.nodup_range.sublist this
+
+theorem sourcesOf_idx_nodup (conns : List (Nat × Nat)) (t : Nat) : ((sourcesOf conns t).map (·.2)).Nodup :=
+  ((sourcesOf_perm conns t).map _).nodup_iff.mpr (srcPairs_idx_nodup conns t)
+
+
+def gkey (conns : List (Nat × Nat)) (t : Nat) : List Nat := (sourcesOf conns t).map (·.1)
+def gw (conns : List (Nat × Nat)) (t : Nat) : List Nat := (sourcesOf conns t).map (·.2)
+
+def gstep (conns : List (Nat × Nat)) (gs : List Group) (t : Nat) : List Group :=
+  if gs.any (fun g => g.srcs == gkey conns t) then
+    gs.map fun g => if g.srcs == gkey conns t then
+      { g with dsts := g.dsts ++ [t], wids := g.wids ++ [gw conns t] } else g
+  else gs ++ [{ srcs := gkey conns t, dsts := [t], wids := [gw conns t] }]
+
+theorem groupsOf_eq (conns : List (Nat × Nat)) :
+    groupsOf conns = (norm (conns.map (·.2))).foldl (gstep conns) [] := rfl
+
+structure GInv (conns : List (Nat × Nat)) (p : List Nat) (gs : List Group) : Prop where
+  keys : (gs.map (·.srcs)).Nodup
+  dsts : ∀ g ∈ gs, g.dsts = p.filter (fun t => gkey conns t == g.srcs)
+  ne : ∀ g ∈ gs, g.dsts ≠ []
+  wids : ∀ g ∈ gs, g.wids = g.dsts.map (gw conns)
+  cover : ∀ t ∈ p, ∃ g ∈ gs, g.srcs = gkey conns t
+
+theorem GInv_step (conns : List (Nat × Nat)) (p : List Nat) (gs : List Group) (t : Nat)
+    (h : GInv conns p gs) : GInv conns (p ++ [t]) (gstep conns gs t) := by
+  unfold gstep
+  split
+  · rename_i hany
+    simp only [List.any_eq_true, beq_iff_eq] at hany
+    have hsr : ∀ g : Group, (if g.srcs == gkey conns t then
+        ({ g with dsts := g.dsts ++ [t], wids := g.wids ++ [gw conns t] } : Group) else g).srcs = g.srcs := by
+      intro g; split <;> rfl
+    refine ⟨?_, ?_, ?_, ?_, ?_⟩
+    · rw [List.map_map]
+      have : ((fun g : Group => g.srcs) ∘ fun g : Group => if g.srcs == gkey conns t then
+        ({ g with dsts := g.dsts ++ [t], wids := g.wids ++ [gw conns t] } : Group) else g) = fun g => g.srcs := by
+        funext g; exact hsr g
+      rw [this]; exact h.keys
+    · intro g' hg'
+      obtain ⟨g, hg, rfl⟩ := List.mem_map.mp hg'
+      rw [hsr, List.filter_append]
+      by_cases hk : g.srcs = gkey conns t
+      · have := h.dsts g hg
+        rw [hk] at this
+        simp [hk, this]
+      · have hk' : ¬ gkey conns t = g.srcs := fun e => hk e.symm
+        simp [hk, hk', ← h.dsts g hg]
+    · intro g' hg'
+      obtain ⟨g, hg, rfl⟩ := List.mem_map.mp hg'
+      split
+      · simp
+      · exact h.ne g hg
+    · intro g' hg'
+      obtain ⟨g, hg, rfl⟩ := List.mem_map.mp hg'
+      split
+      · simp [h.wids g hg]
+      · exact h.wids g hg
+    · intro t' ht'
+      rcases List.mem_append.mp ht' with ht' | ht'
+      · obtain ⟨g, hg, hs⟩ := h.cover t' ht'
+        exact ⟨_, List.mem_map.mpr ⟨g, hg, rfl⟩, by rw [hsr]; exact hs⟩
+      · simp only [List.mem_singleton] at ht'; subst ht'
+        obtain ⟨g, hg, hs⟩ := hany
+        exact ⟨_, List.mem_map.mpr ⟨g, hg, rfl⟩, by rw [hsr]; exact hs⟩
+  · rename_i hany
+    simp only [List.any_eq_true, beq_iff_eq, not_exists, not_and] at hany
+    have hpf : p.filter (fun t' => gkey conns t' == gkey conns t) = [] := by
+      rw [List.filter_eq_nil_iff]
+      intro t' ht' hk
+      obtain ⟨g, hg, hs⟩ := h.cover t' ht'
+      exact hany g hg (by rw [hs]; simpa using hk)
+    refine ⟨?_, ?_, ?_, ?_, ?_⟩
+    · rw [List.map_append, List.nodup_append]
+      refine ⟨h.keys, by simp, ?_⟩
+      intro a ha b hb
+      simp only [List.map_cons, List.map_nil, List.mem_singleton] at hb
+      subst hb
+      obtain ⟨g, hg, rfl⟩ := List.mem_map.mp ha
+      exact hany g hg
+    · intro g hg
+      rcases List.mem_append.mp hg with hg | hg
+      · have hk' : ¬ gkey conns t = g.srcs := fun e => hany g hg e.symm
+        rw [List.filter_append, ← h.dsts g hg]
+        simp [hk']
+      · simp only [List.mem_singleton] at hg; subst hg
+        rw [List.filter_append, hpf]; simp
+    · intro g hg
+      rcases List.mem_append.mp hg with hg | hg
+      · exact h.ne g hg
+      · simp only [List.mem_singleton] at hg; subst hg; simp
+    · intro g hg
+      rcases List.mem_append.mp hg with hg | hg
+      · exact h.wids g hg
+      · simp only [List.mem_singleton] at hg; subst hg; simp
+    · intro t' ht'
+      rcases List.mem_append.mp ht' with ht' | ht'
+      · obtain ⟨g, hg, hs⟩ := h.cover t' ht'
+        exact ⟨g, List.mem_append.mpr (Or.inl hg), hs⟩
+      · simp only [List.mem_singleton] at ht'; subst ht'
+        exact ⟨_, List.mem_append.mpr (Or.inr (List.mem_singleton.mpr rfl)), rfl⟩
+
+theorem GInv_foldl (conns : List (Nat × Nat)) : ∀ (l p : List Nat) (gs : List Group),
+    GInv conns p gs → GInv conns (p ++ l) (l.foldl (gstep conns) gs) := by
+  intro l
+  induction l with
+  | nil => intro p gs h; simpa using h
+  | cons t l ih =>
+    intro p gs h
+    have := ih (p ++ [t]) _ (GInv_step conns p gs t h)
+    simpa using this
+
+theorem GInv_groupsOf (conns : List (Nat × Nat)) :
+    GInv conns (norm (conns.map (·.2))) (groupsOf conns) := by
+  have := GInv_foldl conns (norm (conns.map (·.2))) [] []
+    ⟨by simp, by simp, by simp, by simp, by simp⟩
+  simpa [groupsOf_eq] using this
+
+
+theorem eraseDups_of_nodup_gen {α : Type} [BEq α] [LawfulBEq α] (n : Nat) :
+    ∀ l : List α, l.length ≤ n → l.Nodup → l.eraseDups = l := by
+  induction n with
+  | zero => intro l hl _; have : l = [] := List.length_eq_zero_iff.mp (by omega); subst this; simp
+  | succ n ih =>
+    intro l hl hp
+    cases l with
+    | nil => simp
+    | cons a as =>
+      rw [List.nodup_cons] at hp
+      have hf : as.filter (fun b => !b == a) = as := by
+        rw [List.filter_eq_self]
+        intro b hb
+        have : b ≠ a := fun h => hp.1 (h ▸ hb)
+        simpa using this
+      rw [List.eraseDups_cons, hf, ih as (by simp at hl; omega) hp.2]
+
+/-- the facts packed in the `validNet` certificate -/
+structure VN (n : Net) : Prop where
+  cnodup : n.conns.Nodup
+  ends : ∀ c ∈ n.conns, (c.1 ∈ n.inputs ∨ c.1 ∈ n.hiddens) ∧ (c.2 ∈ n.hiddens ∨ c.2 ∈ n.outputs)
+  layer : ∀ c ∈ n.conns, n.layerOf c.1 < n.layerOf c.2
+  fed : ∀ t ∈ n.nonInputs, ∃ c ∈ n.conns, c.2 = t
+  reach : ∀ h ∈ n.hiddens, reaches n (n.hidden.length + 1) h = true
+  hasAct : ∀ t ∈ n.nonInputs, ∃ p ∈ n.activs, p.1 = t
+  disj : ∀ i ∈ n.inputs, i ∉ n.nonInputs
+  disjHO : ∀ h ∈ n.hiddens, h ∉ n.outputs
+
+theorem validNet_iff (n : Net) : validNet n = true ↔ VN n := by
+  unfold validNet
+  simp only [Bool.and_eq_true, List.all_eq_true, beq_iff_eq, decide_eq_true_eq, Bool.or_eq_true,
+    List.contains_eq_mem, List.any_eq_true, Bool.not_eq_true', decide_eq_false_iff_not]
+  constructor
+  · rintro ⟨⟨⟨⟨⟨⟨⟨h1, h2⟩, h3⟩, h4⟩, h5⟩, h6⟩, h7⟩, h8⟩
+    exact ⟨nodup_of_eraseDups_length h1, h2, h3, fun t ht => by
+      obtain ⟨c, hc, he⟩ := h4 t ht; exact ⟨c, hc, he⟩, h5, fun t ht => by
+      obtain ⟨c, hc, he⟩ := h6 t ht; exact ⟨c, hc, he⟩, h7, h8⟩
+  · intro h
+    refine ⟨⟨⟨⟨⟨⟨⟨?_, h.ends⟩, h.layer⟩, ?_⟩, h.reach⟩, ?_⟩, h.disj⟩, h.disjHO⟩
+    · rw [eraseDups_of_nodup_gen _ _ (Nat.le_refl _) h.cnodup]
+    · intro t ht; obtain ⟨c, hc, he⟩ := h.fed t ht; exact ⟨c, hc, he⟩
+    · intro t ht; obtain ⟨c, hc, he⟩ := h.hasAct t ht; exact ⟨c, hc, he⟩
+
+theorem mem_nonInputs {n : Net} {t : Nat} : t ∈ n.nonInputs ↔ t ∈ n.hiddens ∨ t ∈ n.outputs := by
+  unfold Net.nonInputs; exact mem_union
+
+theorem targets_eq_nonInputs {n : Net} (h : VN n) : norm (n.conns.map (·.2)) = n.nonInputs := by
+  apply eq_of_sorted_of_mem_iff (norm_sorted _) (union_sorted _ _)
+  intro t
+  rw [mem_norm, List.mem_map]
+  constructor
+  · rintro ⟨c, hc, rfl⟩
+    exact mem_nonInputs.mpr (h.ends c hc).2
+  · intro ht
+    obtain ⟨c, hc, he⟩ := h.fed t ht
+    exact ⟨c, hc, he⟩
+
+
+structure OInv (n : Net) (GS : List Group) (done_ : List Nat) (sched : List Group) : Prop where
+  sorted : done_.Pairwise (· < ·)
+  mem : ∀ x, x ∈ done_ ↔ x ∈ n.inputs ∨ ∃ g ∈ sched, x ∈ g.dsts
+  sub : ∀ g ∈ sched, g ∈ GS
+  nodup : sched.Nodup
+  early : ∀ gi, gi < sched.length → ∀ s ∈ (sched.getD gi ⟨[], [], []⟩).srcs,
+    s ∈ n.inputs ∨ ∃ g' ∈ sched.take gi, s ∈ g'.dsts
+
+theorem orderPass_nil (done_ : List Nat) (sched : List Group) : orderPass [] done_ sched = (done_, sched) := rfl
+
+theorem orderPass_cons (g : Group) (l : List Group) (done_ : List Nat) (sched : List Group) :
+    orderPass (g :: l) done_ sched =
+      if subset g.srcs done_ && !subset g.dsts done_ then orderPass l (union done_ g.dsts) (sched ++ [g])
+      else orderPass l done_ sched := by
+  unfold orderPass
+  simp only [List.foldl_cons]
+  split <;> rfl
+
+theorem OInv_step {n : Net} {GS : List Group} {done_ : List Nat} {sched : List Group} {g : Group}
+    (h : OInv n GS done_ sched) (hg : g ∈ GS) (hs : subset g.srcs done_ = true)
+    (hd : subset g.dsts done_ = false) : OInv n GS (union done_ g.dsts) (sched ++ [g]) := by
+  refine ⟨union_sorted _ _, ?_, ?_, ?_, ?_⟩
+  · intro x
+    rw [mem_union, h.mem]
+    constructor
+    · rintro ((hx | ⟨g', hg', hx⟩) | hx)
+      · exact Or.inl hx
+      · exact Or.inr ⟨g', List.mem_append.mpr (Or.inl hg'), hx⟩
+      · exact Or.inr ⟨g, by simp, hx⟩
+    · rintro (hx | ⟨g', hg', hx⟩)
+      · exact Or.inl (Or.inl hx)
+      · rcases List.mem_append.mp hg' with hg' | hg'
+        · exact Or.inl (Or.inr ⟨g', hg', hx⟩)
+        · simp only [List.mem_singleton] at hg'; subst hg'; exact Or.inr hx
+  · intro g' hg'
+    rcases List.mem_append.mp hg' with hg' | hg'
+    · exact h.sub g' hg'
+    · simp only [List.mem_singleton] at hg'; subst hg'; exact hg
+  · rw [List.nodup_append]
+    refine ⟨h.nodup, by simp, ?_⟩
+    intro a ha b hb
+    simp only [List.mem_singleton] at hb; subst hb
+    rintro rfl
+    have : subset a.dsts done_ = true := by
+      rw [subset_iff]; intro x hx; exact (h.mem x).mpr (Or.inr ⟨a, ha, hx⟩)
+    rw [this] at hd; exact Bool.noConfusion hd
+  · intro gi hgi s hsrc
+    simp only [List.length_append, List.length_singleton] at hgi
+    by_cases hlt : gi < sched.length
+    · have e1 : (sched ++ [g]).getD gi ⟨[], [], []⟩ = sched.getD gi ⟨[], [], []⟩ := by
+        simp [List.getD_eq_getElem?_getD, List.getElem?_append_left hlt]
+      have e2 : (sched ++ [g]).take gi = sched.take gi := List.take_append_of_le_length (by omega)
+      rw [e1] at hsrc; rw [e2]
+      exact h.early gi hlt s hsrc
+    · have hgi' : gi = sched.length := by omega
+      subst hgi'
+      have e1 : (sched ++ [g]).getD sched.length ⟨[], [], []⟩ = g := by
+        simp [List.getD_eq_getElem?_getD]
+      have e2 : (sched ++ [g]).take sched.length = sched := by simp
+      rw [e1] at hsrc; rw [e2]
+      have := (subset_iff.mp hs) s hsrc
+      exact (h.mem s).mp this
+
+theorem pass_inv {n : Net} {GS : List Group} : ∀ (l : List Group), (∀ g ∈ l, g ∈ GS) →
+    ∀ (done_ : List Nat) (sched : List Group), OInv n GS done_ sched →
+    OInv n GS (orderPass l done_ sched).1 (orderPass l done_ sched).2 := by
+  intro l
+  induction l with
+  | nil => intro _ done_ sched h; exact h
+  | cons g l ih =>
+    intro hl done_ sched h
+    rw [orderPass_cons]
+    split
+    · rename_i hc
+      simp only [Bool.and_eq_true, Bool.not_eq_true'] at hc
+      exact ih (fun g' hg' => hl g' (by simp [hg'])) _ _ (OInv_step h (hl g (by simp)) hc.1 hc.2)
+    · exact ih (fun g' hg' => hl g' (by simp [hg'])) _ _ h
+
+theorem pass_mono : ∀ (l : List Group) (done_ : List Nat) (sched : List Group),
+    ∀ x ∈ done_, x ∈ (orderPass l done_ sched).1 := by
+  intro l
+  induction l with
+  | nil => intro _ _ x hx; exact hx
+  | cons g l ih =>
+    intro done_ sched x hx
+    rw [orderPass_cons]
+    split
+    · exact ih _ _ x (mem_union.mpr (Or.inl hx))
+    · exact ih _ _ x hx
+
+theorem pass_hit : ∀ (l : List Group) (done_ : List Nat) (sched : List Group) (g : Group),
+    g ∈ l → subset g.srcs done_ = true → ∀ x ∈ g.dsts, x ∈ (orderPass l done_ sched).1 := by
+  intro l
+  induction l with
+  | nil => intro _ _ g hg; simp at hg
+  | cons g0 l ih =>
+    intro done_ sched g hg hs x hx
+    rw [orderPass_cons]
+    rcases List.mem_cons.mp hg with rfl | hg
+    · split
+      · exact pass_mono _ _ _ x (mem_union.mpr (Or.inr hx))
+      · rename_i hc
+        simp only [Bool.and_eq_true, Bool.not_eq_true', not_and, Bool.not_eq_false] at hc
+        exact pass_mono _ _ _ x (subset_iff.mp (hc hs) x hx)
+    · split
+      · apply ih _ _ g hg _ x hx
+        rw [subset_iff] at hs ⊢
+        intro y hy; exact mem_union.mpr (Or.inl (hs y hy))
+      · exact ih _ _ g hg hs x hx
+
+
+theorem exists_min_image (f : Nat → Nat) : ∀ (l : List Nat), l ≠ [] → ∃ x ∈ l, ∀ y ∈ l, f x ≤ f y := by
+  intro l
+  induction l with
+  | nil => intro h; exact absurd rfl h
+  | cons a t ih =>
+    intro _
+    by_cases ht : t = []
+    · subst ht; exact ⟨a, by simp, by simp⟩
+    · obtain ⟨x, hx, hmin⟩ := ih ht
+      by_cases hax : f a ≤ f x
+      · refine ⟨a, by simp, ?_⟩
+        intro y hy
+        rcases List.mem_cons.mp hy with rfl | hy
+        · exact Nat.le_refl _
+        · exact Nat.le_trans hax (hmin y hy)
+      · refine ⟨x, by simp [hx], ?_⟩
+        intro y hy
+        rcases List.mem_cons.mp hy with rfl | hy
+        · omega
+        · exact hmin y hy
+
+/-- facts about the groups of a valid net -/
+theorem group_of_target {n : Net} (hn : VN n) {t : Nat} (ht : t ∈ n.nonInputs) :
+    ∃ g ∈ groupsOf n.conns, t ∈ g.dsts ∧ g.srcs = gkey n.conns t := by
+  have hG := GInv_groupsOf n.conns
+  rw [targets_eq_nonInputs hn] at hG
+  obtain ⟨g, hg, hs⟩ := hG.cover t ht
+  refine ⟨g, hg, ?_, hs⟩
+  rw [hG.dsts g hg, List.mem_filter]
+  exact ⟨ht, by simp [hs]⟩
+
+theorem group_dsts_sub {n : Net} (hn : VN n) {g : Group} (hg : g ∈ groupsOf n.conns) :
+    ∀ t ∈ g.dsts, t ∈ n.nonInputs ∧ g.srcs = gkey n.conns t := by
+  have hG := GInv_groupsOf n.conns
+  rw [targets_eq_nonInputs hn] at hG
+  intro t ht
+  rw [hG.dsts g hg, List.mem_filter] at ht
+  exact ⟨ht.1, (beq_iff_eq.mp ht.2).symm⟩
+
+theorem mem_gkey {conns : List (Nat × Nat)} {t s : Nat} : s ∈ gkey conns t ↔ (s, t) ∈ conns := by
+  unfold gkey
+  rw [List.mem_map]
+  constructor
+  · rintro ⟨⟨s', i⟩, hp, rfl⟩
+    obtain ⟨h, he⟩ := mem_sourcesOf.mp hp
+    rw [← he]; exact List.getElem_mem h
+  · intro h
+    obtain ⟨i, hi, he⟩ := List.mem_iff_getElem.mp h
+    exact ⟨(s, i), mem_sourcesOf.mpr ⟨hi, he⟩, rfl⟩
+
+theorem done_sub_nodes {n : Net} (hn : VN n) {done_ : List Nat} {sched : List Group}
+    (h : OInv n (groupsOf n.conns) done_ sched) : ∀ x ∈ done_, x ∈ n.nodes := by
+  intro x hx
+  rcases (h.mem x).mp hx with hi | ⟨g, hg, hxg⟩
+  · exact mem_nodes.mpr (Or.inl hi)
+  · exact mem_nodes.mpr (Or.inr (group_dsts_sub hn (h.sub g hg) x hxg).1)
+
+theorem nodes_sorted (n : Net) : n.nodes.Pairwise (· < ·) := union_sorted _ _
+
+theorem pass_progress {n : Net} (hn : VN n) {done_ : List Nat} {sched : List Group}
+    (h : OInv n (groupsOf n.conns) done_ sched) (hne : done_ ≠ n.nodes) :
+    done_.length < (orderPass (groupsOf n.conns) done_ sched).1.length := by
+  have hsub := done_sub_nodes hn h
+  -- a missing node
+  have hmiss : (n.nodes.filter fun x => !done_.contains x) ≠ [] := by
+    intro he
+    apply hne
+    apply eq_of_sorted_of_mem_iff h.sorted (nodes_sorted n)
+    intro x
+    refine ⟨hsub x, fun hx => ?_⟩
+    rw [List.filter_eq_nil_iff] at he
+    have := he x hx
+    simpa using this
+  obtain ⟨x, hx, hmin⟩ := exists_min_image n.layerOf _ hmiss
+  rw [List.mem_filter] at hx
+  have hxd : x ∉ done_ := by simpa using hx.2
+  have hxni : x ∈ n.nonInputs := by
+    rcases mem_nodes.mp hx.1 with hi | hni
+    · exact absurd ((h.mem x).mpr (Or.inl hi)) hxd
+    · exact hni
+  obtain ⟨g, hg, hxg, hsrcs⟩ := group_of_target hn hxni
+  have hsd : subset g.srcs done_ = true := by
+    rw [subset_iff]
+    intro s hs
+    rw [hsrcs, mem_gkey] at hs
+    by_contra hsd
+    have hsn : s ∈ n.nodes := by
+      rcases (hn.ends _ hs).1 with hi | hh
+      · exact mem_nodes.mpr (Or.inl hi)
+      · exact mem_nodes.mpr (Or.inr (mem_nonInputs.mpr (Or.inl hh)))
+    have := hmin s (List.mem_filter.mpr ⟨hsn, by simpa using hsd⟩)
+    have := hn.layer _ hs
+    simp only at this
+    omega
+  have hx' := pass_hit _ done_ sched g hg hsd x hxg
+  have hinv := pass_inv (n := n) _ (fun g hg => hg) done_ sched h
+  have hnd : (x :: done_).Nodup := List.nodup_cons.mpr ⟨hxd, h.sorted.imp (fun h => Nat.ne_of_lt h)⟩
+  have hss : (x :: done_) ⊆ (orderPass (groupsOf n.conns) done_ sched).1 := by
+    intro y hy
+    rcases List.mem_cons.mp hy with rfl | hy
+    · exact hx'
+    · exact pass_mono _ _ _ y hy
+  have := (List.subperm_of_subset hnd hss).length_le
+  simp only [List.length_cons] at this
+  omega
+
+theorem loop_ok {n : Net} (hn : VN n) : ∀ (fuel : Nat) (done_ : List Nat) (sched : List Group),
+    OInv n (groupsOf n.conns) done_ sched → n.nodes.length - done_.length ≤ fuel →
+    ∃ sch, orderLoop (groupsOf n.conns) n.nodes fuel done_ sched = some sch ∧
+      OInv n (groupsOf n.conns) n.nodes sch := by
+  intro fuel
+  induction fuel with
+  | zero =>
+    intro done_ sched h hf
+    have hsub := done_sub_nodes hn h
+    have hnd : done_.Nodup := h.sorted.imp (fun h => Nat.ne_of_lt h)
+    have hp := (List.subperm_of_subset hnd hsub).perm_of_length_le (by omega)
+    have he : done_ = n.nodes := eq_of_sorted_of_mem_iff h.sorted (nodes_sorted n) (fun x => hp.mem_iff)
+    refine ⟨sched, ?_, he ▸ h⟩
+    simp [orderLoop, he]
+  | succ fuel ih =>
+    intro done_ sched h hf
+    by_cases he : done_ = n.nodes
+    · refine ⟨sched, ?_, he ▸ h⟩
+      simp [orderLoop, he]
+    · have hprog := pass_progress hn h he
+      have hinv := pass_inv (n := n) _ (fun g hg => hg) done_ sched h
+      obtain ⟨sch, hs1, hs2⟩ := ih _ _ hinv (by omega)
+      refine ⟨sch, ?_, hs2⟩
+      rw [orderLoop]
+      have : (done_ == n.nodes) = false := by simpa using he
+      simp only [this]
+      exact hs1
+
+theorem OInv_init (n : Net) (GS : List Group) : OInv n GS (norm n.inputs) [] := by
+  refine ⟨norm_sorted _, ?_, by simp, by simp, by simp⟩
+  intro x; simp [mem_norm]
+
+theorem getOrder_OInv {n : Net} (hn : VN n) :
+    ∃ sch, getOrder n = some sch ∧ OInv n (groupsOf n.conns) n.nodes sch := by
+  unfold getOrder
+  exact loop_ok hn _ _ _ (OInv_init n _) (by omega)
+
+
+theorem zip_map_fst_snd {α β : Type} (l : List (α × β)) : (l.map (·.1)).zip (l.map (·.2)) = l := by
+  induction l with
+  | nil => rfl
+  | cons a t ih => simpa using ih
+
+theorem valid_of_VS {n : Net} {sch : List Group} (h : VS n sch) : validSchedule n sch = true := by
+  unfold validSchedule
+  simp only [Bool.and_eq_true, List.all_eq_true, beq_iff_eq, decide_eq_true_eq]
+  refine ⟨⟨⟨h.once, ?_⟩, ?_⟩, ?_⟩
+  · intro g hg
+    refine ⟨⟨?_, h.wlen g hg⟩, fun t ht => by simpa using h.dsub g hg t ht⟩
+    rw [eraseDups_of_nodup_gen _ _ (Nat.le_refl _) (h.dnodup g hg)]
+  · intro g hg j hj
+    obtain ⟨h1, h2, h3, h4⟩ := h.recs g hg j (List.mem_range.mp hj)
+    generalize g.wids.getD j [] = wj at *
+    generalize g.dsts.getD j 0 = tj at *
+    have hms : (g.srcs.zip wj).map (·.2) = wj := List.map_snd_zip (by omega)
+    refine ⟨⟨⟨h1, ?_⟩, h3⟩, ?_⟩
+    · rw [hms, eraseDups_of_nodup_gen _ _ (Nat.le_refl _) h2]; simp; omega
+    · rintro ⟨i, c⟩ hic
+      obtain ⟨hi, rfl⟩ := mem_range_zip.mp hic
+      by_cases ht : n.conns[i].2 = tj
+      · have := h4 i hi ht
+        simp [this]
+      · simp [ht]
+  · intro gi hgi s hs
+    have := h.early gi (List.mem_range.mp hgi) s hs
+    simpa using this
+
+theorem OInv_final_VS {n : Net} (hn : VN n) {sch : List Group}
+    (h : OInv n (groupsOf n.conns) n.nodes sch) : VS n sch := by
+  have hG := GInv_groupsOf n.conns
+  rw [targets_eq_nonInputs hn] at hG
+  refine ⟨?_, ?_, ?_, ?_, ?_, h.early⟩
+  · intro t ht
+    obtain ⟨g, hg, htg, hsr⟩ := group_of_target hn ht
+    have hmem : g ∈ sch := by
+      have : t ∈ n.nodes := mem_nodes.mpr (Or.inr ht)
+      rcases (h.mem t).mp this with hi | ⟨g', hg', htg'⟩
+      · exact absurd ht (hn.disj t hi)
+      · have e := (group_dsts_sub hn (h.sub g' hg') t htg').2
+        have : g' = g := List.inj_on_of_nodup_map hG.keys (h.sub g' hg') hg (by rw [e, hsr])
+        exact this ▸ hg'
+    have hfil : sch.filter (fun g' => g'.dsts.contains t) = sch.filter (fun g' => g' == g) := by
+      apply List.filter_congr
+      intro g' hg'
+      by_cases hc : t ∈ g'.dsts
+      · have e := (group_dsts_sub hn (h.sub g' hg') t hc).2
+        have : g' = g := List.inj_on_of_nodup_map hG.keys (h.sub g' hg') hg (by rw [e, hsr])
+        simp [this, htg]
+      · have : g' ≠ g := fun e => hc (e ▸ htg)
+        simp [hc, this]
+    rw [hfil, ← List.countP_eq_length_filter]
+    exact List.count_eq_one_of_mem h.nodup hmem
+  · intro g hg
+    rw [hG.dsts g (h.sub g hg)]
+    exact ((union_sorted _ _).imp (fun h => Nat.ne_of_lt h)).sublist List.filter_sublist
+  · intro g hg
+    rw [hG.wids g (h.sub g hg)]; simp
+  · intro g hg t ht
+    exact (group_dsts_sub hn (h.sub g hg) t ht).1
+  · intro g hg j hj
+    have hgs := h.sub g hg
+    have htj : g.dsts.getD j 0 = g.dsts[j] := by
+      simp [List.getD_eq_getElem?_getD, List.getElem?_eq_getElem hj]
+    have hw : g.wids.getD j [] = gw n.conns g.dsts[j] := by
+      simp [List.getD_eq_getElem?_getD, hG.wids g hgs, List.getElem?_eq_getElem hj]
+    have hs : g.srcs = gkey n.conns g.dsts[j] := (group_dsts_sub hn hgs _ (List.getElem_mem hj)).2
+    rw [htj, hw, hs]
+    have hz : (gkey n.conns g.dsts[j]).zip (gw n.conns g.dsts[j]) = sourcesOf n.conns g.dsts[j] :=
+      zip_map_fst_snd _
+    rw [hz]
+    refine ⟨by simp [gw, gkey], sourcesOf_idx_nodup _ _, ?_, ?_⟩
+    · rintro ⟨s, i⟩ hp
+      obtain ⟨hi, he⟩ := mem_sourcesOf.mp hp
+      exact ⟨by simp [List.getD_eq_getElem?_getD, List.getElem?_eq_getElem hi, he], hi⟩
+    · intro i hi he
+      apply mem_sourcesOf.mpr
+      exact ⟨hi, by rw [← he]⟩
+
+theorem getOrder_valid (n : Net) (hv : validNet n = true) :
+    ∃ sch, getOrder n = some sch ∧ validSchedule n sch = true := by
+  have hn := (validNet_iff n).mp hv
+  obtain ⟨sch, h1, h2⟩ := getOrder_OInv hn
+  exact ⟨sch, h1, valid_of_VS (OInv_final_VS hn h2)⟩
+
+
+theorem srcPairs_map_fst (conns : List (Nat × Nat)) (t : Nat) :
+    (srcPairs conns t).map (·.1) = (conns.filter fun c => c.2 == t).map (·.1) := by
+  unfold srcPairs
+  have h2 : ((List.range conns.length).zip conns).map (·.2) = conns := List.map_snd_zip (by simp)
+  conv => rhs; rw [← h2]
+  rw [List.filter_map, List.map_map, List.map_map]
+  rfl
+
+theorem gkey_eq_norm {conns : List (Nat × Nat)} (hn : conns.Nodup) (t : Nat) :
+    gkey conns t = norm ((conns.filter fun c => c.2 == t).map (·.1)) := by
+  have hperm : (gkey conns t).Perm ((conns.filter fun c => c.2 == t).map (·.1)) := by
+    rw [← srcPairs_map_fst]
+    exact (sourcesOf_perm conns t).map _
+  have hnd : ((conns.filter fun c => c.2 == t).map (·.1)).Nodup := by
+    apply List.Nodup.map_on _ (hn.sublist List.filter_sublist)
+    intro c hc c' hc' he
+    have h1 : c.2 = t := by simpa using (List.mem_filter.mp hc).2
+    have h2 : c'.2 = t := by simpa using (List.mem_filter.mp hc').2
+    exact Prod.ext he (h1.trans h2.symm)
+  have hsorted : (gkey conns t).Pairwise (· < ·) := by
+    have h1 : (gkey conns t).Pairwise (· ≤ ·) := by
+      unfold gkey; rw [List.pairwise_map]; exact sourcesOf_sorted conns t
+    have h2 : (gkey conns t).Pairwise (· ≠ ·) := hperm.nodup_iff.mpr hnd
+    exact (h1.and h2).imp (fun h => Nat.lt_of_le_of_ne h.1 h.2)
+  apply eq_of_sorted_of_mem_iff hsorted (norm_sorted _)
+  intro x
+  rw [mem_norm, hperm.mem_iff]
+
+theorem share_all {n : Net} (hs : shareSources n = true) : ∀ o1 ∈ n.outputs, ∀ o2 ∈ n.outputs,
+    norm ((n.conns.filter fun c => c.2 == o1).map (·.1)) = norm ((n.conns.filter fun c => c.2 == o2).map (·.1)) := by
+  unfold shareSources at hs
+  cases ho : n.outputs with
+  | nil => intro o1 h1; simp at h1
+  | cons o os =>
+    rw [ho] at hs
+    simp only [List.all_eq_true, beq_iff_eq] at hs
+    have key : ∀ o' ∈ o :: os, norm ((n.conns.filter fun c => c.2 == o').map (·.1)) =
+        norm ((n.conns.filter fun c => c.2 == o).map (·.1)) := by
+      intro o' ho'
+      rcases List.mem_cons.mp ho' with rfl | ho'
+      · rfl
+      · exact hs o' ho'
+    intro o1 h1 o2 h2
+    rw [key o1 h1, key o2 h2]
+
+theorem softmax_together (n : Net) (sch : List Group) (hv : validNet n = true)
+    (hs : shareSources n = true) (h5 : ∀ t ∈ n.nonInputs, n.activ t = 5 → t ∈ n.outputs)
+    (ho : getOrder n = some sch) : softmaxTogether n sch = true := by
+  have hn := (validNet_iff n).mp hv
+  obtain ⟨sch', h1, h2⟩ := getOrder_OInv hn
+  rw [ho] at h1
+  cases h1
+  have hG := GInv_groupsOf n.conns
+  rw [targets_eq_nonInputs hn] at hG
+  unfold softmaxTogether
+  simp only [List.all_eq_true, Bool.or_eq_true, Bool.not_eq_true', List.any_eq_false, beq_iff_eq,
+    bne_iff_ne, ne_eq, decide_eq_true_eq, List.contains_eq_mem]
+  intro g hg
+  by_cases hex : ∃ t ∈ g.dsts, n.activ t = 5
+  · right
+    obtain ⟨t, ht, ht5⟩ := hex
+    have hgs := h2.sub g hg
+    obtain ⟨htn, hsr⟩ := group_dsts_sub hn hgs t ht
+    have hto := h5 t htn ht5
+    intro t' ht'
+    by_cases h5' : n.activ t' = 5
+    · right
+      have hto' := h5 t' ht' h5'
+      have : gkey n.conns t' = g.srcs := by
+        rw [hsr, gkey_eq_norm hn.cnodup, gkey_eq_norm hn.cnodup]
+        exact share_all hs t' hto' t hto
+      rw [hG.dsts g hgs, List.mem_filter]
+      exact ⟨ht', by simp [this]⟩
+    · exact Or.inl h5'
+  · left
+    intro t ht h
+    exact hex ⟨t, ht, h⟩
+
+
+/-! ## decoding a genotype -/
+
+/-- level of a node w.r.t. a list of hidden blocks (0 = not hidden) -/
+def lvlH (H : List (List Nat)) (x : Nat) : Nat :=
+  match H.findIdx? (fun l => l.contains x) with
+  | some j => j + 1
+  | none => 0
+
+theorem layerOf_eq (n : Net) (x : Nat) :
+    n.layerOf x = if n.outputs.contains x then n.hidden.length + 1 else lvlH n.hidden x := rfl
+
+theorem lvlH_nil (x : Nat) : lvlH [] x = 0 := rfl
+
+theorem lvlH_cons (a : List Nat) (H : List (List Nat)) (x : Nat) :
+    lvlH (a :: H) x = if x ∈ a then 1 else (if lvlH H x = 0 then 0 else lvlH H x + 1) := by
+  unfold lvlH
+  rw [List.findIdx?_cons]
+  by_cases hx : x ∈ a
+  · simp [hx]
+  · simp only [List.contains_eq_mem, hx, decide_false, Bool.false_eq_true, if_false]
+    cases List.findIdx? (fun l => decide (x ∈ l)) H <;> simp
+
+theorem lvlH_le (H : List (List Nat)) (x : Nat) : lvlH H x ≤ H.length := by
+  induction H with
+  | nil => simp [lvlH_nil]
+  | cons a H ih => rw [lvlH_cons]; simp only [List.length_cons]; split <;> [omega; (split <;> omega)]
+
+theorem lvlH_pos_iff (H : List (List Nat)) (x : Nat) : 0 < lvlH H x ↔ x ∈ H.flatten := by
+  induction H with
+  | nil => simp [lvlH_nil]
+  | cons a H ih =>
+    rw [lvlH_cons, List.flatten_cons, List.mem_append, ← ih]
+    by_cases hx : x ∈ a
+    · simp [hx]
+    · simp only [hx, if_false, false_or]
+      split <;> omega
+
+theorem lvlH_eq_zero {H : List (List Nat)} {x : Nat} (h : x ∉ H.flatten) : lvlH H x = 0 := by
+  have := (lvlH_pos_iff H x).not.mpr h
+  omega
+
+theorem lvlH_append_left (A B : List (List Nat)) (x : Nat) (h : x ∈ A.flatten) :
+    lvlH (A ++ B) x = lvlH A x := by
+  induction A with
+  | nil => simp at h
+  | cons a A ih =>
+    rw [List.cons_append, lvlH_cons, lvlH_cons]
+    by_cases hx : x ∈ a
+    · simp [hx]
+    · have hA : x ∈ A.flatten := by
+        rw [List.flatten_cons, List.mem_append] at h
+        exact h.resolve_left hx
+      simp only [hx, if_false]
+      rw [ih hA]
+
+theorem lvlH_append_right (A B : List (List Nat)) (x : Nat) (h : x ∉ A.flatten) (hB : x ∈ B.flatten) :
+    lvlH (A ++ B) x = lvlH B x + A.length := by
+  induction A with
+  | nil => simp
+  | cons a A ih =>
+    rw [List.flatten_cons, List.mem_append, not_or] at h
+    rw [List.cons_append, lvlH_cons]
+    have hpos := (lvlH_pos_iff B x).mpr hB
+    simp only [h.1, if_false, ih h.2, List.length_cons]
+    split <;> omega
+
+theorem mem_flatten_zipLayers (A B : List (List Nat)) (x : Nat) :
+    x ∈ (zipLayers A B).flatten ↔ x ∈ A.flatten ∨ x ∈ B.flatten := by
+  induction A generalizing B with
+  | nil => simp [zipLayers]
+  | cons a A ih =>
+    cases B with
+    | nil => simp [zipLayers]
+    | cons b B =>
+      simp only [zipLayers, List.flatten_cons, List.mem_append, mem_union, ih]
+      tauto
+
+theorem lvlH_zip_left (A B : List (List Nat)) (x : Nat) (h : x ∉ B.flatten) :
+    lvlH (zipLayers A B) x = lvlH A x := by
+  induction A generalizing B with
+  | nil =>
+    simp only [zipLayers, lvlH_nil]
+    exact lvlH_eq_zero h
+  | cons a A ih =>
+    cases B with
+    | nil => simp [zipLayers]
+    | cons b B =>
+      rw [List.flatten_cons, List.mem_append, not_or] at h
+      simp only [zipLayers, lvlH_cons, mem_union, h.1, or_false, ih B h.2]
+
+theorem lvlH_zip_right (A B : List (List Nat)) (x : Nat) (h : x ∉ A.flatten) :
+    lvlH (zipLayers A B) x = lvlH B x := by
+  induction A generalizing B with
+  | nil => simp [zipLayers]
+  | cons a A ih =>
+    cases B with
+    | nil =>
+      simp only [zipLayers, lvlH_nil]
+      exact lvlH_eq_zero h
+    | cons b B =>
+      rw [List.flatten_cons, List.mem_append, not_or] at h
+      simp only [zipLayers, lvlH_cons, mem_union, h.1, false_or, ih B h.2]
+
+theorem mem_hiddens_flat {n : Net} {x : Nat} : x ∈ n.hiddens ↔ x ∈ n.hidden.flatten := by
+  simp [Net.hiddens, mem_norm]
+
+
+/-- invariant of a stack entry of the decoder (all hidden ids in `[nVars, n)`) -/
+structure SInv (nVars : Nat) (net : Net) (n : Nat) : Prop where
+  out : net.outputs = []
+  inp : ∀ i ∈ net.inputs, i < nVars
+  hid : ∀ x ∈ net.hidden.flatten, nVars ≤ x ∧ x < n
+  conn : ∀ c ∈ net.conns, (c.1 ∈ net.inputs ∨ c.1 ∈ net.hidden.flatten) ∧ c.2 ∈ net.hidden.flatten ∧
+    lvlH net.hidden c.1 < lvlH net.hidden c.2
+  act : ∀ h ∈ net.hidden.flatten, ∃ p ∈ net.activs, p.1 = h
+  actlt : ∀ p ∈ net.activs, p.1 < n
+
+def Disj (a b : Net) : Prop := ∀ x ∈ a.hidden.flatten, x ∉ b.hidden.flatten
+
+theorem SInv.mono {nVars : Nat} {net : Net} {n m : Nat} (h : SInv nVars net n) (hnm : n ≤ m) :
+    SInv nVars net m :=
+  ⟨h.out, h.inp, fun x hx => ⟨(h.hid x hx).1, by have := (h.hid x hx).2; omega⟩, h.conn, h.act,
+    fun p hp => by have := h.actlt p hp; omega⟩
+
+theorem SInv.inp_not_hid {nVars : Nat} {a b : Net} {n : Nat} (ha : SInv nVars a n) (hb : SInv nVars b n)
+    {i : Nat} (hi : i ∈ a.inputs) : i ∉ b.hidden.flatten := by
+  intro h
+  have := ha.inp i hi
+  have := (hb.hid i h).1
+  omega
+
+theorem addMain_inv {nVars : Nat} {a b : Net} {n : Nat} (ha : SInv nVars a n) (hb : SInv nVars b n)
+    (hd : Disj a b) : SInv nVars (addMain a b) n := by
+  have hd' : ∀ x ∈ b.hidden.flatten, x ∉ a.hidden.flatten := fun x hx hxa => hd x hxa hx
+  refine ⟨?_, ?_, ?_, ?_, ?_, ?_⟩
+  · simp [addMain, ha.out, hb.out, union]
+  · intro i hi
+    rcases mem_union.mp hi with hi | hi
+    · exact ha.inp i hi
+    · exact hb.inp i hi
+  · intro x hx
+    rcases (mem_flatten_zipLayers _ _ x).mp hx with hx | hx
+    · exact ha.hid x hx
+    · exact hb.hid x hx
+  · intro c hc
+    show (c.1 ∈ union a.inputs b.inputs ∨ c.1 ∈ (zipLayers a.hidden b.hidden).flatten) ∧
+      c.2 ∈ (zipLayers a.hidden b.hidden).flatten ∧
+      lvlH (zipLayers a.hidden b.hidden) c.1 < lvlH (zipLayers a.hidden b.hidden) c.2
+    simp only [mem_flatten_zipLayers, mem_union]
+    rcases List.mem_append.mp hc with hc | hc
+    · obtain ⟨h1, h2, h3⟩ := ha.conn c hc
+      have e2 : c.2 ∉ b.hidden.flatten := hd _ h2
+      have e1 : c.1 ∉ b.hidden.flatten := by
+        rcases h1 with h1 | h1
+        · exact ha.inp_not_hid hb h1
+        · exact hd _ h1
+      rw [lvlH_zip_left _ _ _ e1, lvlH_zip_left _ _ _ e2]
+      exact ⟨by tauto, Or.inl h2, h3⟩
+    · obtain ⟨h1, h2, h3⟩ := hb.conn c hc
+      have e2 : c.2 ∉ a.hidden.flatten := hd' _ h2
+      have e1 : c.1 ∉ a.hidden.flatten := by
+        rcases h1 with h1 | h1
+        · exact hb.inp_not_hid ha h1
+        · exact hd' _ h1
+      rw [lvlH_zip_right _ _ _ e1, lvlH_zip_right _ _ _ e2]
+      exact ⟨by tauto, Or.inr h2, h3⟩
+  · intro h hh
+    show ∃ p ∈ a.activs ++ b.activs, p.1 = h
+    rcases (mem_flatten_zipLayers _ _ h).mp hh with hh | hh
+    · obtain ⟨p, hp, e⟩ := ha.act h hh; exact ⟨p, List.mem_append.mpr (Or.inl hp), e⟩
+    · obtain ⟨p, hp, e⟩ := hb.act h hh; exact ⟨p, List.mem_append.mpr (Or.inr hp), e⟩
+  · intro p hp
+    rcases List.mem_append.mp hp with hp | hp
+    · exact ha.actlt p hp
+    · exact hb.actlt p hp
+
+theorem addMain_flat (a b : Net) (x : Nat) :
+    x ∈ (addMain a b).hidden.flatten ↔ x ∈ a.hidden.flatten ∨ x ∈ b.hidden.flatten :=
+  mem_flatten_zipLayers _ _ x
+
+theorem gtMain_flat (a b : Net) (x : Nat) :
+    x ∈ (gtMain a b).hidden.flatten ↔ x ∈ a.hidden.flatten ∨ x ∈ b.hidden.flatten := by
+  simp [gtMain]
+
+theorem gtMain_inv {nVars : Nat} {a b : Net} {n : Nat} (ha : SInv nVars a n) (hb : SInv nVars b n)
+    (hd : Disj a b) : SInv nVars (gtMain a b) n := by
+  have hd' : ∀ x ∈ b.hidden.flatten, x ∉ a.hidden.flatten := fun x hx hxa => hd x hxa hx
+  refine ⟨?_, ?_, ?_, ?_, ?_, ?_⟩
+  · simp [gtMain, ha.out, hb.out, union]
+  · intro i hi
+    rcases mem_union.mp hi with hi | hi
+    · exact ha.inp i hi
+    · exact hb.inp i hi
+  · intro x hx
+    rcases (gtMain_flat a b x).mp hx with hx | hx
+    · exact ha.hid x hx
+    · exact hb.hid x hx
+  · intro c hc
+    show (c.1 ∈ union a.inputs b.inputs ∨ c.1 ∈ (a.hidden ++ b.hidden).flatten) ∧
+      c.2 ∈ (a.hidden ++ b.hidden).flatten ∧
+      lvlH (a.hidden ++ b.hidden) c.1 < lvlH (a.hidden ++ b.hidden) c.2
+    have hc' : c ∈ a.conns ++ b.conns ++ product
+        (diff (union a.inputs a.hiddens) (a.conns.map (·.1)))
+        (diff (union b.hiddens b.outputs)
+          ((b.conns.filter fun c => !b.inputs.contains c.1).map (·.2))) := hc
+    simp only [List.flatten_append, List.mem_append, mem_union]
+    rcases List.mem_append.mp hc' with hc' | hc'
+    · rcases List.mem_append.mp hc' with hc' | hc'
+      · obtain ⟨h1, h2, h3⟩ := ha.conn c hc'
+        rw [lvlH_append_left _ _ _ h2]
+        refine ⟨by tauto, Or.inl h2, ?_⟩
+        rcases h1 with h1 | h1
+        · have e1 : c.1 ∉ (a.hidden ++ b.hidden).flatten := by
+            simp only [List.flatten_append, List.mem_append, not_or]
+            exact ⟨ha.inp_not_hid ha h1, ha.inp_not_hid hb h1⟩
+          rw [lvlH_eq_zero e1]
+          omega
+        · rw [lvlH_append_left _ _ _ h1]; exact h3
+      · obtain ⟨h1, h2, h3⟩ := hb.conn c hc'
+        rw [lvlH_append_right _ _ _ (hd' _ h2) h2]
+        refine ⟨by tauto, Or.inr h2, ?_⟩
+        rcases h1 with h1 | h1
+        · have e1 : c.1 ∉ (a.hidden ++ b.hidden).flatten := by
+            simp only [List.flatten_append, List.mem_append, not_or]
+            exact ⟨hb.inp_not_hid ha h1, hb.inp_not_hid hb h1⟩
+          rw [lvlH_eq_zero e1]
+          omega
+        · rw [lvlH_append_right _ _ _ (hd' _ h1) h1]; omega
+    · obtain ⟨h1, h2⟩ := mem_product.mp hc'
+      have h1' := (mem_diff.mp h1).1
+      have h2' := (mem_diff.mp h2).1
+      rw [hb.out, mem_union, mem_hiddens_flat] at h2'
+      have h2b : c.2 ∈ b.hidden.flatten := by simpa using h2'
+      rw [mem_union, mem_hiddens_flat] at h1'
+      rw [lvlH_append_right _ _ _ (hd' _ h2b) h2b]
+      have hpos := (lvlH_pos_iff b.hidden c.2).mpr h2b
+      refine ⟨by tauto, Or.inr h2b, ?_⟩
+      rcases h1' with h1' | h1'
+      · have e1 : c.1 ∉ (a.hidden ++ b.hidden).flatten := by
+          simp only [List.flatten_append, List.mem_append, not_or]
+          exact ⟨ha.inp_not_hid ha h1', ha.inp_not_hid hb h1'⟩
+        rw [lvlH_eq_zero e1]
+        omega
+      · rw [lvlH_append_left _ _ _ h1']
+        have := lvlH_le a.hidden c.1
+        omega
+  · intro h hh
+    show ∃ p ∈ a.activs ++ b.activs, p.1 = h
+    rcases (gtMain_flat a b h).mp hh with hh | hh
+    · obtain ⟨p, hp, e⟩ := ha.act h hh; exact ⟨p, List.mem_append.mpr (Or.inl hp), e⟩
+    · obtain ⟨p, hp, e⟩ := hb.act h hh; exact ⟨p, List.mem_append.mpr (Or.inr hp), e⟩
+  · intro p hp
+    rcases List.mem_append.mp hp with hp | hp
+    · exact ha.actlt p hp
+    · exact hb.actlt p hp
+
+
+theorem Disj.symm {a b : Net} (h : Disj a b) : Disj b a := fun x hx hxa => h x hxa hx
+
+theorem add_cases (a b : Net) : add a b = gtMain a b ∨ add a b = gtMain b a ∨ add a b = addMain a b := by
+  unfold add
+  simp only
+  split
+  · exact Or.inl rfl
+  · split
+    · exact Or.inr (Or.inl rfl)
+    · exact Or.inr (Or.inr rfl)
+
+theorem gt_cases (a b : Net) : gt a b = gtMain a b ∨ gt a b = gtMain b a ∨ gt a b = addMain a b := by
+  unfold gt
+  simp only
+  split
+  · exact Or.inr (Or.inr rfl)
+  · split
+    · exact Or.inr (Or.inl rfl)
+    · exact Or.inl rfl
+
+theorem comb_inv {nVars : Nat} {a b r : Net} {n : Nat} (ha : SInv nVars a n) (hb : SInv nVars b n)
+    (hd : Disj a b) (hr : r = gtMain a b ∨ r = gtMain b a ∨ r = addMain a b) :
+    SInv nVars r n ∧ ∀ x, x ∈ r.hidden.flatten ↔ x ∈ a.hidden.flatten ∨ x ∈ b.hidden.flatten := by
+  rcases hr with rfl | rfl | rfl
+  · exact ⟨gtMain_inv ha hb hd, gtMain_flat a b⟩
+  · exact ⟨gtMain_inv hb ha hd.symm, fun x => (gtMain_flat b a x).trans Or.comm⟩
+  · exact ⟨addMain_inv ha hb hd, addMain_flat a b⟩
+
+def StackInv (nVars : Nat) (stack : List Net) (n : Nat) : Prop :=
+  (∀ e ∈ stack, SInv nVars e n) ∧ stack.Pairwise Disj
+
+def symOK (nVars : Nat) (s : NSym) : Prop :=
+  match s with
+  | .inp vars => vars ≠ [] ∧ ∀ v ∈ vars, v < nVars
+  | .hid size _ => 0 < size
+  | _ => True
+
+theorem comb_stack {nVars : Nat} {x y r : Net} {stack : List Net} {n : Nat}
+    (h : StackInv nVars (x :: y :: stack) n)
+    (hr : r = gtMain x y ∨ r = gtMain y x ∨ r = addMain x y) : StackInv nVars (r :: stack) n := by
+  obtain ⟨h1, h2⟩ := h
+  rw [List.pairwise_cons, List.pairwise_cons] at h2
+  obtain ⟨hx, hy, hst⟩ := h2
+  have hxy : Disj x y := hx y (by simp)
+  obtain ⟨hr1, hr2⟩ := comb_inv (h1 x (by simp)) (h1 y (by simp)) hxy hr
+  refine ⟨?_, ?_⟩
+  · intro e he
+    rcases List.mem_cons.mp he with rfl | he
+    · exact hr1
+    · exact h1 e (by simp [he])
+  · rw [List.pairwise_cons]
+    refine ⟨?_, hst⟩
+    intro e he z hz
+    rcases (hr2 z).mp hz with hz | hz
+    · exact hx e (by simp [he]) z hz
+    · exact hy e he z hz
+
+theorem decodeStep_inv {nVars : Nat} {stack : List Net} {n : Nat} (s : NSym)
+    (h : StackInv nVars stack n) (hn : nVars ≤ n) (hs : symOK nVars s) :
+    StackInv nVars (decodeStep (stack, n) s).1 (decodeStep (stack, n) s).2 ∧
+    nVars ≤ (decodeStep (stack, n) s).2 ∧
+    (stack ≠ [] → (decodeStep (stack, n) s).1 ≠ []) ∧
+    (s.arity = 0 → (decodeStep (stack, n) s).1 ≠ []) := by
+  cases s with
+  | inp vars =>
+    simp only [decodeStep]
+    refine ⟨⟨?_, ?_⟩, hn, by simp, by simp⟩
+    · intro e he
+      rcases List.mem_cons.mp he with rfl | he
+      · refine ⟨rfl, ?_, by simp, by simp, by simp, by simp⟩
+        intro i hi
+        exact hs.2 i (mem_norm.mp hi)
+      · exact h.1 e he
+    · rw [List.pairwise_cons]
+      exact ⟨fun e _ x hx => by simp at hx, h.2⟩
+  | hid size activ =>
+    simp only [decodeStep]
+    refine ⟨⟨?_, ?_⟩, by omega, by simp, by simp⟩
+    · intro e he
+      rcases List.mem_cons.mp he with rfl | he
+      · refine ⟨rfl, by simp, ?_, by simp, ?_, ?_⟩
+        · intro x hx
+          simp only [List.flatten_cons, List.flatten_nil, List.append_nil, List.mem_map, List.mem_range] at hx
+          obtain ⟨a, ha, rfl⟩ := hx
+          omega
+        · intro x hx
+          simp only [List.flatten_cons, List.flatten_nil, List.append_nil] at hx
+          exact ⟨(x, activ), List.mem_map.mpr ⟨x, hx, rfl⟩, rfl⟩
+        · intro p hp
+          simp only [List.mem_map, List.mem_range] at hp
+          obtain ⟨a, ⟨b, hb, rfl⟩, rfl⟩ := hp
+          simp; omega
+      · exact (h.1 e he).mono (by omega)
+    · rw [List.pairwise_cons]
+      refine ⟨?_, h.2⟩
+      intro e he x hx hxe
+      simp only [List.flatten_cons, List.flatten_nil, List.append_nil, List.mem_map, List.mem_range] at hx
+      obtain ⟨a, ha, rfl⟩ := hx
+      have := ((h.1 e he).hid _ hxe).2
+      omega
+  | plus =>
+    match stack, h with
+    | [], h => exact ⟨h, hn, by simp, by simp [NSym.arity]⟩
+    | [x], h => exact ⟨h, hn, by simp [decodeStep], by simp [NSym.arity]⟩
+    | x :: y :: st, h =>
+      exact ⟨comb_stack h (add_cases x y), hn, by simp [decodeStep], by simp [decodeStep]⟩
+  | gtr =>
+    match stack, h with
+    | [], h => exact ⟨h, hn, by simp, by simp [NSym.arity]⟩
+    | [x], h => exact ⟨h, hn, by simp [decodeStep], by simp [NSym.arity]⟩
+    | x :: y :: st, h =>
+      exact ⟨comb_stack h (gt_cases x y), hn, by simp [decodeStep], by simp [decodeStep]⟩
+
+theorem decodeFold_inv {nVars : Nat} : ∀ (l : List NSym) (stack : List Net) (n : Nat),
+    StackInv nVars stack n → nVars ≤ n → (∀ s ∈ l, symOK nVars s) → stack ≠ [] →
+    StackInv nVars (l.foldl decodeStep (stack, n)).1 (l.foldl decodeStep (stack, n)).2 ∧
+    nVars ≤ (l.foldl decodeStep (stack, n)).2 ∧ (l.foldl decodeStep (stack, n)).1 ≠ [] := by
+  intro l
+  induction l with
+  | nil => intro stack n h hn _ hne; exact ⟨h, hn, hne⟩
+  | cons s l ih =>
+    intro stack n h hn hs hne
+    obtain ⟨h1, h2, h3, _⟩ := decodeStep_inv s h hn (hs s (by simp))
+    rw [List.foldl_cons]
+    exact ih _ _ h1 h2 (fun s' hs' => hs s' (by simp [hs'])) (h3 hne)
+
+
+theorem wfArity_last : ∀ (L : List Nat) (k : Nat), 0 < k → wfArity k L = true →
+    ∃ init, L = init ++ [0] := by
+  intro L
+  induction L with
+  | nil => intro k hk h; cases k with
+    | zero => omega
+    | succ p => simp [wfArity] at h
+  | cons a rest ih =>
+    intro k hk h
+    cases k with
+    | zero => omega
+    | succ p =>
+      simp only [wfArity] at h
+      cases rest with
+      | nil =>
+        cases hpa : p + a with
+        | zero => exact ⟨[], by simp; omega⟩
+        | succ q => rw [hpa] at h; simp [wfArity] at h
+      | cons b rest' =>
+        cases hpa : p + a with
+        | zero => rw [hpa] at h; simp [wfArity] at h
+        | succ q =>
+          obtain ⟨init, hi⟩ := ih (p + a) (by omega) h
+          exact ⟨a :: init, by rw [hi]; rfl⟩
+
+def outNet (n nOut outAct : Nat) : Net :=
+  { outputs := (List.range nOut).map (· + n), activs := ((List.range nOut).map (· + n)).map fun i => (i, outAct) }
+
+theorem decode_top (l : List NSym) (nVars nOut outAct : Nat)
+    (hs : ∀ s ∈ l, symOK nVars s) (hw : wfArity 1 (l.map NSym.arity) = true) :
+    ∃ top n, decode l nVars nOut outAct = some (fix (gt top (outNet n nOut outAct)) (List.range nVars)) ∧
+      SInv nVars top n ∧ nVars ≤ n := by
+  obtain ⟨init, hi⟩ := wfArity_last _ 1 (by omega) hw
+  -- the last symbol is a terminal
+  have hl : ∃ l' s, l = l' ++ [s] ∧ s.arity = 0 := by
+    rcases List.eq_nil_or_concat l with rfl | ⟨l', s, rfl⟩
+    · simp at hi
+    · refine ⟨l', s, by simp, ?_⟩
+      simp only [List.concat_eq_append, List.map_append, List.map_cons, List.map_nil] at hi
+      have := List.append_inj_right' hi (by simp)
+      simpa using this
+  obtain ⟨l', s, rfl, hs0⟩ := hl
+  have h0 : StackInv nVars [] nVars := ⟨by simp, List.Pairwise.nil⟩
+  obtain ⟨h1, h2, _, h4⟩ := decodeStep_inv s h0 (Nat.le_refl _) (hs s (by simp))
+  obtain ⟨h5, h6, h7⟩ := decodeFold_inv l'.reverse _ _ h1 h2
+    (fun s' hs' => hs s' (by simp [List.mem_reverse.mp hs'])) (h4 hs0)
+  unfold decode
+  simp only [List.reverse_append, List.reverse_cons, List.reverse_nil, List.nil_append, List.cons_append,
+    List.foldl_cons]
+  generalize List.foldl decodeStep (decodeStep ([], nVars) s) l'.reverse = res at h5 h6 h7
+  obtain ⟨stack, n⟩ := res
+  cases stack with
+  | nil => exact absurd rfl h7
+  | cons top rest =>
+    exact ⟨top, n, rfl, h5.1 top (by simp), h6⟩
+
+
+theorem eraseDups_nodup_aux {α : Type} [BEq α] [LawfulBEq α] (n : Nat) :
+    ∀ l : List α, l.length ≤ n → l.eraseDups.Nodup := by
+  induction n with
+  | zero => intro l hl; have : l = [] := List.length_eq_zero_iff.mp (by omega); subst this; simp
+  | succ n ih =>
+    intro l hl
+    cases l with
+    | nil => simp
+    | cons a as =>
+      rw [List.eraseDups_cons, List.nodup_cons]
+      refine ⟨?_, ih _ ?_⟩
+      · rw [List.mem_eraseDups, List.mem_filter]
+        simp
+      · have := List.length_filter_le (fun b => !b == a) as
+        simp at hl; omega
+
+theorem sortPairs_nodup (l : List (Nat × Nat)) : (sortPairs l).Nodup :=
+  eraseDups_nodup_aux _ _ (Nat.le_refl _)
+
+theorem mem_sortPairs {l : List (Nat × Nat)} {c : Nat × Nat} : c ∈ sortPairs l ↔ c ∈ l := by
+  unfold sortPairs
+  rw [List.mem_eraseDups, List.mem_mergeSort]
+
+theorem product_nil_right (l : List Nat) : product l [] = [] := by
+  induction l with
+  | nil => rfl
+  | cons a t ih => simp [product]
+
+theorem fix_eq (m : Net) (all : List Nat) :
+    fix m all =
+      { m with
+        inputs := if (diff (union m.hiddens m.outputs) (m.conns.map (·.2))).length > 0 then
+            (if m.inputs.length = 0 then all else m.inputs) else m.inputs,
+        conns := sortPairs (m.conns ++ product (if m.inputs.length = 0 then all else m.inputs)
+            (diff (union m.hiddens m.outputs) (m.conns.map (·.2)))) } := by
+  unfold fix
+  simp only
+  split
+  · rfl
+  · rename_i h
+    have : diff (union m.hiddens m.outputs) (m.conns.map (·.2)) = [] :=
+      List.length_eq_zero_iff.mp (by omega)
+    simp [this, product_nil_right]
+
+theorem gt_outNet (top : Net) (n nOut outAct : Nat) (hto : top.outputs = []) :
+    gt top (outNet n nOut outAct) =
+      { inputs := union top.inputs [], hidden := top.hidden ++ [], outputs := ids n nOut,
+        conns := top.conns ++ product (diff (union top.inputs top.hiddens) (top.conns.map (·.1))) (ids n nOut),
+        activs := top.activs ++ (ids n nOut).map fun i => (i, outAct) } := by
+  have hls := ids_sorted n nOut
+  unfold gt
+  simp only [outNet, List.length_nil]
+  rw [if_neg (by omega), if_neg (by omega)]
+  unfold gtMain
+  simp only [hto, List.filter_nil, List.map_nil, diff_nil, List.append_nil, Net.hiddens, List.flatten_nil,
+    norm_nil]
+  have e : (List.range nOut).map (· + n) = ids n nOut := rfl
+  simp only [e, union_nil_left hls]
+
+
+theorem reaches_of_layers (N : Net) (L : Nat)
+    (hmax : ∀ x, x ∉ N.outputs → N.layerOf x ≤ L)
+    (hout : ∀ h ∈ N.hiddens, h ∉ N.outputs →
+      ∃ c ∈ N.conns, c.1 = h ∧ (c.2 ∈ N.hiddens ∨ c.2 ∈ N.outputs) ∧ N.layerOf h < N.layerOf c.2) :
+    ∀ (k : Nat) (x : Nat), (x ∈ N.hiddens ∨ x ∈ N.outputs) → L + 1 - N.layerOf x ≤ k →
+      reaches N k x = true := by
+  intro k
+  induction k with
+  | zero =>
+    intro x hx hk
+    have : x ∈ N.outputs := by
+      by_contra hno
+      have := hmax x hno
+      omega
+    simp [reaches, this]
+  | succ k ih =>
+    intro x hx hk
+    by_cases hxo : x ∈ N.outputs
+    · simp [reaches, hxo]
+    · have hxh : x ∈ N.hiddens := hx.resolve_right hxo
+      obtain ⟨c, hc, hc1, hc2, hlt⟩ := hout x hxh hxo
+      have := ih c.2 hc2 (by omega)
+      simp only [reaches, Bool.or_eq_true, List.any_eq_true, Bool.and_eq_true, beq_iff_eq]
+      exact Or.inr ⟨c, hc, hc1, this⟩
+
+theorem shareSources_of {N : Net}
+    (h : ∀ o1 ∈ N.outputs, ∀ o2 ∈ N.outputs, ∀ s, (s, o1) ∈ N.conns → (s, o2) ∈ N.conns) :
+    shareSources N = true := by
+  unfold shareSources
+  cases ho : N.outputs with
+  | nil => rfl
+  | cons o os =>
+    simp only [List.all_eq_true, beq_iff_eq]
+    intro o' ho'
+    apply norm_eq_of_mem_iff
+    intro s
+    have key : ∀ t, s ∈ (N.conns.filter fun c => c.2 == t).map (·.1) ↔ (s, t) ∈ N.conns := by
+      intro t
+      simp only [List.mem_map, List.mem_filter, beq_iff_eq]
+      constructor
+      · rintro ⟨c, ⟨hc, rfl⟩, rfl⟩; exact hc
+      · intro hc; exact ⟨(s, t), ⟨hc, rfl⟩, rfl⟩
+    rw [key, key]
+    have h1 : o' ∈ N.outputs := by rw [ho]; simp [ho']
+    have h2 : o ∈ N.outputs := by rw [ho]; simp
+    exact ⟨h o' h1 o h2 s, h o h2 o' h1 s⟩
+
+
+theorem final_core (nVars nOut outAct : Nat) (ho : 0 < nOut) (top : Net) (n : Nat)
+    (ht : SInv nVars top n) (hn : nVars ≤ n) (I ins U F : List Nat)
+    (hF : F = diff (union top.inputs top.hiddens) (top.conns.map (·.1)))
+    (hins_lt : ∀ x ∈ ins, x < nVars) (hins_ne : ins ≠ [])
+    (hI_lt : ∀ x ∈ I, x < nVars) (hMi_I : ∀ x ∈ top.inputs, x ∈ I) (hU_I : U ≠ [] → I = ins)
+    (hU : ∀ x, x ∈ U ↔ (x ∈ top.hidden.flatten ∨ x ∈ ids n nOut) ∧
+      x ∉ (top.conns ++ product F (ids n nOut)).map (·.2))
+    (N : Net)
+    (hN : N = { inputs := I, hidden := top.hidden, outputs := ids n nOut,
+                conns := sortPairs (top.conns ++ product F (ids n nOut) ++ product ins U),
+                activs := top.activs ++ (ids n nOut).map fun i => (i, outAct) }) :
+    VN N ∧ shareSources N = true ∧ N.outputs.length = nOut ∧ ∀ o ∈ N.outputs, N.activ o = outAct := by
+  have hNi : N.inputs = I := by rw [hN]
+  have hNh : N.hidden = top.hidden := by rw [hN]
+  have hNo : N.outputs = ids n nOut := by rw [hN]
+  have hNa : N.activs = top.activs ++ (ids n nOut).map fun i => (i, outAct) := by rw [hN]
+  have hNc : ∀ c, c ∈ N.conns ↔ c ∈ top.conns ∨ c ∈ product F (ids n nOut) ∨ c ∈ product ins U := by
+    intro c; rw [hN]; simp only [mem_sortPairs, List.mem_append, or_assoc]
+  have hNnd : N.conns.Nodup := by rw [hN]; exact sortPairs_nodup _
+  have hhid : ∀ x, x ∈ N.hiddens ↔ x ∈ top.hidden.flatten := by
+    intro x; rw [mem_hiddens_flat, hNh]
+  have hflat : ∀ x ∈ top.hidden.flatten, nVars ≤ x ∧ x < n := ht.hid
+  have hO : ∀ x, x ∈ ids n nOut ↔ n ≤ x ∧ x < n + nOut := fun x => mem_ids
+  have hFsub : ∀ x ∈ F, (x ∈ top.inputs ∨ x ∈ top.hidden.flatten) ∧ x ∉ top.conns.map (·.1) := by
+    intro x hx
+    rw [hF, mem_diff, mem_union, mem_hiddens_flat] at hx
+    exact hx
+  have hlay : ∀ x, N.layerOf x = if x ∈ ids n nOut then top.hidden.length + 1 else lvlH top.hidden x := by
+    intro x
+    rw [layerOf_eq, hNo, hNh]
+    simp only [List.contains_eq_mem, decide_eq_true_eq]
+  have hlay_no : ∀ x, x ∉ ids n nOut → N.layerOf x = lvlH top.hidden x := by
+    intro x hx; rw [hlay, if_neg hx]
+  have hlay_o : ∀ x, x ∈ ids n nOut → N.layerOf x = top.hidden.length + 1 := by
+    intro x hx; rw [hlay, if_pos hx]
+  have hin_no : ∀ x, x < nVars → x ∉ ids n nOut := by
+    intro x hx h; have := ((hO x).mp h).1; omega
+  have hfl_no : ∀ x ∈ top.hidden.flatten, x ∉ ids n nOut := by
+    intro x hx h; have := ((hO x).mp h).1; have := (hflat x hx).2; omega
+  have hin_nf : ∀ x, x < nVars → x ∉ top.hidden.flatten := by
+    intro x hx h; have := (hflat x h).1; omega
+  have hn0 : n ∈ ids n nOut := (hO n).mpr ⟨Nat.le_refl _, by omega⟩
+  have hvn : VN N := by
+    refine ⟨hNnd, ?_, ?_, ?_, ?_, ?_, ?_, ?_⟩
+    · -- ends
+      intro c hc
+      rw [hNi, hhid, hhid, hNo]
+      rcases (hNc c).mp hc with hc | hc | hc
+      · obtain ⟨h1, h2, _⟩ := ht.conn c hc
+        refine ⟨?_, Or.inl h2⟩
+        rcases h1 with h1 | h1
+        · exact Or.inl (hMi_I _ h1)
+        · exact Or.inr h1
+      · obtain ⟨h1, h2⟩ := mem_product.mp hc
+        refine ⟨?_, Or.inr h2⟩
+        rcases (hFsub _ h1).1 with h1 | h1
+        · exact Or.inl (hMi_I _ h1)
+        · exact Or.inr h1
+      · obtain ⟨h1, h2⟩ := mem_product.mp hc
+        have hUne : U ≠ [] := List.ne_nil_of_mem h2
+        rw [hU_I hUne]
+        exact ⟨Or.inl h1, ((hU _).mp h2).1⟩
+    · -- layers
+      intro c hc
+      rcases (hNc c).mp hc with hc | hc | hc
+      · obtain ⟨h1, h2, h3⟩ := ht.conn c hc
+        have e1 : c.1 ∉ ids n nOut := by
+          rcases h1 with h1 | h1
+          · exact hin_no _ (ht.inp _ h1)
+          · exact hfl_no _ h1
+        rw [hlay_no _ e1, hlay_no _ (hfl_no _ h2)]
+        exact h3
+      · obtain ⟨h1, h2⟩ := mem_product.mp hc
+        have e1 : c.1 ∉ ids n nOut := by
+          rcases (hFsub _ h1).1 with h1 | h1
+          · exact hin_no _ (ht.inp _ h1)
+          · exact hfl_no _ h1
+        rw [hlay_no _ e1, hlay_o _ h2]
+        have := lvlH_le top.hidden c.1
+        omega
+      · obtain ⟨h1, h2⟩ := mem_product.mp hc
+        have hlt := hins_lt _ h1
+        rw [hlay_no _ (hin_no _ hlt), lvlH_eq_zero (hin_nf _ hlt)]
+        rcases ((hU _).mp h2).1 with h2 | h2
+        · rw [hlay_no _ (hfl_no _ h2)]
+          exact (lvlH_pos_iff _ _).mpr h2
+        · rw [hlay_o _ h2]; omega
+    · -- fed
+      intro t htn
+      rw [mem_nonInputs, hhid, hNo] at htn
+      by_cases hfed : t ∈ (top.conns ++ product F (ids n nOut)).map (·.2)
+      · obtain ⟨c, hc, rfl⟩ := List.mem_map.mp hfed
+        refine ⟨c, (hNc c).mpr ?_, rfl⟩
+        rcases List.mem_append.mp hc with hc | hc
+        · exact Or.inl hc
+        · exact Or.inr (Or.inl hc)
+      · obtain ⟨i0, hi0⟩ := List.exists_mem_of_ne_nil _ hins_ne
+        exact ⟨(i0, t), (hNc _).mpr (Or.inr (Or.inr (mem_product.mpr ⟨hi0, (hU t).mpr ⟨htn, hfed⟩⟩))), rfl⟩
+    · -- reach
+      intro h hh
+      rw [hNh]
+      apply reaches_of_layers N top.hidden.length
+      · intro x hx
+        rw [hNo] at hx
+        rw [hlay_no _ hx]; exact lvlH_le _ _
+      · intro h hh _
+        rw [hhid] at hh
+        by_cases hsrc : h ∈ top.conns.map (·.1)
+        · obtain ⟨c, hc, rfl⟩ := List.mem_map.mp hsrc
+          obtain ⟨h1, h2, h3⟩ := ht.conn c hc
+          refine ⟨c, (hNc c).mpr (Or.inl hc), rfl, Or.inl ((hhid _).mpr h2), ?_⟩
+          rw [hlay_no _ (hfl_no _ hh), hlay_no _ (hfl_no _ h2)]
+          exact h3
+        · have hF' : h ∈ F := by
+            rw [hF, mem_diff, mem_union, mem_hiddens_flat]
+            exact ⟨Or.inr hh, hsrc⟩
+          refine ⟨(h, n), (hNc _).mpr (Or.inr (Or.inl (mem_product.mpr ⟨hF', hn0⟩))), rfl,
+            Or.inr (by rw [hNo]; exact hn0), ?_⟩
+          rw [hlay_no _ (hfl_no _ hh), hlay_o _ hn0]
+          have := lvlH_le top.hidden h
+          show lvlH top.hidden h < _
+          omega
+      · exact Or.inl hh
+      · have : h ∈ top.hidden.flatten := (hhid h).mp hh
+        have hpos := (lvlH_pos_iff _ _).mpr this
+        rw [hlay_no _ (hfl_no _ this)]
+        omega
+    · -- activations
+      intro t htn
+      rw [mem_nonInputs, hhid, hNo] at htn
+      rw [hNa]
+      rcases htn with htn | htn
+      · obtain ⟨p, hp, e⟩ := ht.act t htn
+        exact ⟨p, List.mem_append.mpr (Or.inl hp), e⟩
+      · exact ⟨(t, outAct), List.mem_append.mpr (Or.inr (List.mem_map.mpr ⟨t, htn, rfl⟩)), rfl⟩
+    · -- inputs vs others
+      intro i hi hni
+      rw [hNi] at hi
+      rw [mem_nonInputs, hhid, hNo] at hni
+      have := hI_lt i hi
+      rcases hni with h | h
+      · exact hin_nf _ this h
+      · exact hin_no _ this h
+    · intro h hh hho
+      rw [hhid] at hh
+      rw [hNo] at hho
+      exact hfl_no _ hh hho
+  refine ⟨hvn, ?_, ?_, ?_⟩
+  · apply shareSources_of
+    intro o1 ho1 o2 ho2 s hs
+    rw [hNo] at ho1 ho2
+    have hnt : ∀ o ∈ ids n nOut, ∀ s', (s', o) ∉ top.conns := by
+      intro o hoo s' hc
+      exact hfl_no _ (ht.conn _ hc).2.1 hoo
+    rcases (hNc _).mp hs with hc | hc | hc
+    · exact absurd hc (hnt o1 ho1 s)
+    · exact (hNc _).mpr (Or.inr (Or.inl (mem_product.mpr ⟨(mem_product.mp hc).1, ho2⟩)))
+    · obtain ⟨h1, h2⟩ := mem_product.mp hc
+      have hnf := ((hU _).mp h2).2
+      have hFnil : ∀ s', s' ∉ F := by
+        intro s' hs'
+        apply hnf
+        exact List.mem_map.mpr ⟨(s', o1), List.mem_append.mpr (Or.inr (mem_product.mpr ⟨hs', ho1⟩)), rfl⟩
+      refine (hNc _).mpr (Or.inr (Or.inr (mem_product.mpr ⟨h1, (hU _).mpr ⟨Or.inr ho2, ?_⟩⟩)))
+      intro hm
+      obtain ⟨c, hc, he⟩ := List.mem_map.mp hm
+      rcases List.mem_append.mp hc with hc | hc
+      · obtain ⟨s', t'⟩ := c
+        simp only at he; subst he
+        exact hnt _ ho2 s' hc
+      · exact hFnil _ (mem_product.mp hc).1
+  · rw [hNo]; simp [ids]
+  · intro o hoo
+    rw [hNo] at hoo
+    apply activ_eq_of
+    · rw [hNa]
+      exact ⟨(o, outAct), List.mem_append.mpr (Or.inr (List.mem_map.mpr ⟨o, hoo, rfl⟩)), rfl⟩
+    · intro p hp hp1
+      rw [hNa] at hp
+      rcases List.mem_append.mp hp with hp | hp
+      · have := ht.actlt p hp
+        have := ((hO o).mp hoo).1
+        omega
+      · obtain ⟨i, _, rfl⟩ := List.mem_map.mp hp
+        rfl
+
+
+theorem decode_valid (l : List NSym) (nVars nOut outAct : Nat)
+    (hw : (∀ s ∈ l, match s with
+       | .inp vars => vars ≠ [] ∧ ∀ v ∈ vars, v < nVars
+       | .hid size _ => 0 < size
+       | _ => True) ∧ wfArity 1 (l.map NSym.arity) = true)
+    (hv : 0 < nVars) (ho : 0 < nOut) :
+    ∃ n, decode l nVars nOut outAct = some n ∧ validNet n = true ∧ shareSources n = true ∧
+      n.outputs.length = nOut ∧ (∀ o ∈ n.outputs, n.activ o = outAct) := by
+  have hs : ∀ s ∈ l, symOK nVars s := by
+    intro s hs
+    have := hw.1 s hs
+    cases s <;> exact this
+  obtain ⟨top, n, hdec, ht, hn⟩ := decode_top l nVars nOut outAct hs hw.2
+  refine ⟨_, hdec, ?_⟩
+  let F := diff (union top.inputs top.hiddens) (top.conns.map (·.1))
+  let Mi := union top.inputs []
+  let U := diff (union (norm top.hidden.flatten) (ids n nOut))
+    ((top.conns ++ product F (ids n nOut)).map (·.2))
+  let ins := if Mi.length = 0 then List.range nVars else Mi
+  let I := if U.length > 0 then ins else Mi
+  have hMi : ∀ x, x ∈ Mi ↔ x ∈ top.inputs := by intro x; simp [Mi, mem_union]
+  have hins_lt : ∀ x ∈ ins, x < nVars := by
+    intro x hx
+    simp only [ins] at hx
+    split at hx
+    · exact List.mem_range.mp hx
+    · exact ht.inp x ((hMi x).mp hx)
+  have hins_ne : ins ≠ [] := by
+    simp only [ins]
+    split
+    · intro h
+      have := congrArg List.length h
+      simp at this; omega
+    · rename_i h
+      intro h'; rw [h'] at h; simp at h
+  have hMi_ins : ∀ x ∈ Mi, x ∈ ins := by
+    intro x hx
+    simp only [ins]
+    rw [if_neg]
+    · exact hx
+    · intro h; rw [List.length_eq_zero_iff.mp h] at hx; simp at hx
+  have key := final_core nVars nOut outAct ho top n ht hn I ins U F rfl hins_lt hins_ne
+    (by
+      intro x hx
+      simp only [I] at hx
+      split at hx
+      · exact hins_lt x hx
+      · exact ht.inp x ((hMi x).mp hx))
+    (by
+      intro x hx
+      have hx' := (hMi x).mpr hx
+      simp only [I]
+      split
+      · exact hMi_ins x hx'
+      · exact hx')
+    (by
+      intro hne
+      simp only [I]
+      rw [if_pos]
+      exact List.length_pos_iff.mpr hne)
+    (by
+      intro x
+      simp only [U, mem_diff, mem_union, mem_norm])
+    (fix (gt top (outNet n nOut outAct)) (List.range nVars))
+    (by
+      rw [gt_outNet _ _ _ _ ht.out, fix_eq]
+      simp only [List.append_nil, Net.hiddens]
+      rfl)
+  exact ⟨(validNet_iff _).mpr key.1, key.2⟩
+
 end TFV.Net
